@@ -31,12 +31,18 @@
     `parseInline_total_mapT_noesctick`  the same from the fourth-part theorem (texts without
                                     backslash-backtick-backtick) — kept because the task asked for it; it
                                     is subsumed by `_all`.
+    `solidMarkers_of_coherent`, `parseInline_total_mapT_chain`: for chains that list the text rule and
+                                    the newline rule, `SolidMarkers` follows from `ChainCoherent`;
+    `solidMarkers_needed`           … and it cannot be dropped in general at inline level: coherent chain
+                                    with marker ' ', `MapT` table, the run panics (crate-confirmed).
   Whole document (namespace `MdIt.Pipeline`), NO hypothesis about tabs:
     `doc_total_tabs_of_single`      generic in the black box (no text hypothesis);
     `doc_total_tabs_of_single_noesc` generic in the black box (texts without backslash-backtick-backtick);
     `doc_total_coherent_tabs`       every configuration with the paragraph rule, a coherent inline chain
                                     (link / image once) and solid emphasis markers: EVERY source within
                                     the `i32` bound parses and renders;
+    `doc_total_coherent_tabs_chain` … without the marker hypothesis when the chain lists the text rule and
+                                    the newline rule;
     `doc_total_noesctick_all`       the same from the fourth-part theorem (`NoEscTickTick src`);
     `doc_total_stock_every`         the stock configuration with strikethrough: EVERY source within the
                                     `i32` bound — C01 for the shipped configuration, complete;
@@ -96,6 +102,39 @@ theorem parseInline_total_mapT_noesctick (cfg : Cfg) (hc : ChainCoherent cfg = t
   parseInline_total_mapT cfg CS.NoEscTickTick
     (fun c hp => parseInline_total_noesctick cfg hc hone (mapOK_single c) hp) hmk hm hne
 
+/-! ### `SolidMarkers` from coherence, for chains with the text rule and the newline rule -/
+
+/-- in a `ChainCoherent` chain that lists the text rule and the newline rule (every shipped chain does),
+    the emphasis markers are solid: the text rule answers at a space, the newline rule at a line feed -/
+theorem solidMarkers_of_coherent (cfg : Cfg) (hc : ChainCoherent cfg = true)
+    (htext : RuleId.text ∈ cfg.chain) (hnl : RuleId.newline ∈ cfg.chain) : SolidMarkers cfg.chain := by
+  intro mk csw hmem
+  have hmm : mk ∈ cfg.emphMarkers := by
+    unfold Cfg.emphMarkers
+    exact List.mem_filterMap.mpr ⟨_, hmem, rfl⟩
+  unfold ChainCoherent at hc
+  have h1 := List.all_eq_true.mp hc mk hmm
+  simp only [Bool.and_eq_true, beq_iff_eq] at h1
+  obtain ⟨hsz, hall⟩ := h1
+  have h2 := List.all_eq_true.mp hall
+  refine ⟨hsz, ?_, ?_⟩
+  · intro e
+    have := h2 _ hnl
+    simp [RuleId.firesAt, e] at this
+  · intro e
+    have := h2 _ htext
+    subst e
+    revert this
+    decide
+
+/-- `parseInline_total_mapT_all` for chains with the text rule and the newline rule: coherence alone -/
+theorem parseInline_total_mapT_chain (cfg : Cfg) (hc : ChainCoherent cfg = true)
+    (hone : cfg.chain.count .link ≤ 1 ∧ cfg.chain.count .image ≤ 1)
+    (htext : RuleId.text ∈ cfg.chain) (hnl : RuleId.newline ∈ cfg.chain)
+    {c : List Char} {m : Srcmap} (hm : MapT c m) :
+    ∃ cs, parseInline cfg c m = .ok cs :=
+  parseInline_total_mapT_all cfg hc hone (solidMarkers_of_coherent cfg hc htext hnl) hm
+
 /-! ### non-vacuity (inline) -/
 
 /-- the table of Lemmas/C05TabsRanges4.lean (`"a  \n   b *c*"` with three virtual spaces in front of
@@ -127,6 +166,81 @@ example :
       some (.rust .underflow) := by
   refine ⟨parseInline_total_stock 100 _, ?_⟩
   decide +kernel
+
+/-! ### `SolidMarkers` is needed at inline level -/
+
+/-- a chain whose only rule is an emphasis pair on the SPACE character (coherent: no rule answers at a
+    space in look-ahead mode) -/
+def spCfg : Cfg :=
+  { exCfg 100 with
+    chain := [.emph ' ' true]
+    fns := fun _ i => if i = 0 then some .em else if i = 1 then some .strong else none }
+
+/-- a text whose second line starts with three spaces … -/
+def spC : List Char := ['x', '\n', ' ', ' ', ' ', 'b', ' ', ' ', 'c', ' ', 'd']
+
+/-- … which the table declares to be VIRTUAL (the cut part of a split tab: both entries at source
+    offset 2) -/
+def spM : Srcmap := [(0, 0), (2, 2), (5, 2)]
+
+theorem spM_mapT : MapT spC spM := by
+  refine C05T.mapT_of_virt ⟨⟨_, _, rfl⟩, by decide⟩ ?_ ?_ ⟨?_, ?_⟩
+  · intro i k1 v1 k2 v2 h1 h2
+    match i with
+    | 0 => simp [spM] at h1 h2; omega
+    | 1 => simp [spM] at h1 h2; omega
+    | n + 2 => simp [spM] at h2
+  · intro i k v h
+    match i with
+    | 0 =>
+      simp [spM] at h
+      obtain ⟨rfl, rfl⟩ := h
+      exact .inl ⟨['x'], [' ', ' ', ' ', 'b', ' ', ' ', 'c', ' ', 'd'], rfl, by decide⟩
+    | 1 =>
+      simp [spM] at h
+      obtain ⟨rfl, rfl⟩ := h
+      exact .inr ⟨2, rfl⟩
+    | n + 2 => simp [spM] at h
+  · intro i k0 v k h0 h1 p hp hp'
+    match i with
+    | 0 => simp [spM] at h0 h1; omega
+    | 1 =>
+      simp [spM] at h0 h1
+      obtain ⟨rfl, rfl⟩ := h0
+      obtain ⟨rfl, _⟩ := h1
+      have : p = 2 ∨ p = 3 ∨ p = 4 := by omega
+      rcases this with rfl | rfl | rfl
+      · exact ⟨['x', '\n'], [' ', ' ', 'b', ' ', ' ', 'c', ' ', 'd'], rfl, by decide⟩
+      · exact ⟨['x', '\n', ' '], [' ', 'b', ' ', ' ', 'c', ' ', 'd'], rfl, by decide⟩
+      · exact ⟨['x', '\n', ' ', ' '], ['b', ' ', ' ', 'c', ' ', 'd'], rfl, by decide⟩
+    | n + 2 => simp [spM] at h1
+  · intro i k0 v k h0 h1
+    match i with
+    | 0 => simp [spM] at h0 h1; omega
+    | 1 =>
+      simp [spM] at h0 h1
+      obtain ⟨rfl, rfl⟩ := h0
+      exact .inr ⟨['x'], [' ', ' ', ' ', 'b', ' ', ' ', 'c', ' ', 'd'], rfl, by decide⟩
+    | n + 2 => simp [spM] at h1
+
+/-- **`SolidMarkers` cannot be dropped from `parseInline_transfer_mapT` / `parseInline_total_mapT_all`**:
+    a `ChainCoherent` chain with the marker ' ', a `MapT` table — the run of three VIRTUAL spaces becomes an
+    `EmphMarker` with the empty range `(2, 2)`; the closer `"  "` cuts two delimiters off it (`2 - 2`), the
+    closer `" "` one more: `0 - 1` underflows.  Under `[(0, 0)]` the same run returns.  CRATE-CONFIRMED
+    (`md.inline.parse("x\n   b  c d", vec![(0,0),(2,2),(5,2)], ..)` with `emph_pair::add_with::<' ', 1|2, true>`
+    on `MarkdownIt::new()`: "attempt to subtract with overflow"; under `vec![(0,0)]` it returns
+    `Text(0,2) Em(2,10) Text(10,11)`, the ranges of the model).  (At DOCUMENT level
+    the virtual spaces of a split tab sit at source offset ≥ 4, more than the three delimiters that can
+    be cut: no document-level witness is known.) -/
+theorem solidMarkers_needed :
+    ChainCoherent spCfg = true ∧ MapT spC spM ∧
+    (∃ cs, parseInline spCfg spC [(0, 0)] = .ok cs) ∧
+    Pipeline.errOf (parseInline spCfg spC spM) = some (.rust .underflow) := by
+  refine ⟨by decide +kernel, spM_mapT, ?_, by decide +kernel⟩
+  have h : Pipeline.isOk (parseInline spCfg spC [(0, 0)]) = true := by decide +kernel
+  cases hp : parseInline spCfg spC [(0, 0)] with
+  | ok cs => exact ⟨cs, rfl⟩
+  | error e => rw [hp] at h; cases h
 
 end MdIt.Inline
 
@@ -188,6 +302,17 @@ theorem doc_total_coherent_tabs (cfg : DocCfg) (src : List Char)
     (∃ t, parseDoc cfg src = .ok t) ∧ ∀ x, ∃ html, renderDoc x cfg src = .ok html :=
   doc_total_tabs_of_single cfg src hsmall hpara hmk (fun refs c =>
     Inline.parseInline_total (cfg.inlineCfg refs) hc hone (Inline.mapOK_single c))
+
+/-- … for chains with the text rule and the newline rule (every shipped chain): coherence alone, no
+    separate hypothesis on the markers -/
+theorem doc_total_coherent_tabs_chain (cfg : DocCfg) (src : List Char)
+    (hc : Inline.ChainCoherent (cfg.inlineCfg []) = true)
+    (hone : cfg.inlineChain.count .link ≤ 1 ∧ cfg.inlineChain.count .image ≤ 1)
+    (htext : Inline.RuleId.text ∈ cfg.inlineChain) (hnl : Inline.RuleId.newline ∈ cfg.inlineChain)
+    (hsmall : 4 * Lines.byteLen src + 8 < 2147483648) (hpara : cfg.hasPara = true) :
+    (∃ t, parseDoc cfg src = .ok t) ∧ ∀ x, ∃ html, renderDoc x cfg src = .ok html :=
+  doc_total_coherent_tabs cfg src hc hone hsmall hpara
+    (Inline.solidMarkers_of_coherent (cfg.inlineCfg []) hc htext hnl)
 
 /-- the same from the fourth-part inline theorem: sources without backslash-backtick-backtick
     (`doc_total_src_noesc` of Props/MemoSafe.lean without `'\t' ∉ src`); subsumed by
